@@ -570,6 +570,16 @@ class Interp(object):
                     t = Tok("I", a.name, a.val, a.off - b, a.dom, a.extra)
                     over = a.val + a.off - b < 0
                     return (t, over) if op == "SubWithOverflow" else t
+                if getattr(self.policy, "allow_len_diff", False) and isinstance(a, Tok) and isinstance(b, Tok) \
+                        and a.kind == "I" and b.kind == "I" and a.dom == "len" and b.dom == "len" \
+                        and a.name.startswith("len(") and b.name.startswith("len(") and not a.off and not b.off:
+                    # `whole.len() - rest.len()`: when `rest` is a tail of `whole` (a stream position), this is the
+                    # offset of `rest` in `whole`, the same quantity as the pointer difference
+                    self.obligations.append(("ptrdiff", self.where(), "ptr(%s)" % b.name[4:-1], "ptr(%s)" % a.name[4:-1]))
+                    self.obligations.append(("len-diff", self.where(), a.name, b.name))
+                    t = Tok("D", "ptr(%s)-ptr(%s)" % (b.name[4:-1], a.name[4:-1]), None,
+                            extra={"minuend": "ptr(%s)" % b.name[4:-1], "subtrahend": "ptr(%s)" % a.name[4:-1]})
+                    return (t, False) if op == "SubWithOverflow" else t
                 if isinstance(a, Tok) and isinstance(b, Tok) and a.kind == "A" and b.kind == "A":
                     self.obligations.append(("ptrdiff", self.where(), a.name, b.name))
                     t = Tok("D", "%s-%s" % (a.name, b.name), None, extra={"minuend": a.name, "subtrahend": b.name})
